@@ -26,6 +26,10 @@ def gen_scenario(rng, i):
                       "return_states": rng.choice([None, "all"])})
     if rng.random() < 0.5:
         sc["ops"].append({"op": "run", "model": 0, "X": scengen.rows(rng, rng.randint(1, 3), din), "stateful": False})
+    if rng.random() < 0.4:
+        # integer-typed input arrays: results are still the (float) composition of the nodes
+        sc["ops"].append({"op": "run", "model": 0, "X": [[str(rng.randint(-5, 5)) for _ in range(din)] for _ in range(rng.randint(1, 4))],
+                          "int_input": True, "return_states": rng.choice([None, "all"])})
     return sc
 
 
@@ -119,6 +123,23 @@ def _judge(sc):
         if exp.shape != got.shape or not np.allclose(exp, got, rtol=1e-12, atol=1e-12):
             return _viol("compose:node-output", "node %d (%s): Model.run differs from node-by-node evaluation" % (nd["id"], nd["kind"]),
                          sc, exp.tolist(), got.tolist())
+    # requested outputs given as any iterable of names (list, tuple, set, dict keys) come from exactly the named nodes
+    names = [b1.nodes[nd["id"]].name for nd in sc["nodes"]]
+    if len(names) >= 2:
+        ref = {i: np.asarray(res[b1.nodes[i].name]) for i in (nd["id"] for nd in sc["nodes"])}   # the return_states="all" run above
+        for mk in (tuple, set, lambda l: dict.fromkeys(l).keys()):
+            b4 = scen.Built(sc)          # a fresh copy per form: hidden memory must not differ between the compared runs
+            m4 = b4.models[0]
+            names4 = {nd["id"]: b4.nodes[nd["id"]].name for nd in sc["nodes"]}
+            arg = {b4.nodes[e].name: X[e] for e in entries} if use_map else X[entries[0]]
+            form = mk(list(names4.values()))
+            try:
+                got = m4.run(arg, return_states=form)
+            except Exception as e:
+                return _viol("return_states:iterable-form", "return_states given as %s raises %r" % (type(form).__name__, e), sc)
+            if not isinstance(got, dict) or sorted(got) != sorted(names4.values()) or \
+                    any(not np.allclose(got[names4[i]], ref[i], atol=1e-12) for i in names4):
+                return _viol("return_states:iterable-form", "return_states given as %s does not return the named nodes' states" % type(form).__name__, sc)
     # result form: one output and no return_states -> bare array; otherwise keyed by name
     b3 = scen.Built(sc)
     m3 = b3.models[0]
